@@ -8,6 +8,7 @@ from .. import oracles as orc
 from ..gen import J, JI
 
 PROP = "C05"
+HOSTILE = ('scale', 'mean')
 MONITORS = ("WF", "DENS", "CACHE")
 ANCHORS = [("pdf.py", "GaussianPDF.get_marginal"), ("pdf.py", "GaussianDiagPDF.get_marginal"),
            ("pdf.py", "GaussianPDF.get_density_of_linear_sum")]
@@ -80,7 +81,10 @@ def run_cell(cell, rec, seed):
                       mech="marginal-Sigma")
             # numerical integral of the library's joint over the dropped coordinates
             drop = np.array([i for i in range(D) if i not in dims])
-            if 1 <= len(drop) <= 2 and len(dims) <= 3:
+            sd_ = np.sqrt(np.max(np.diagonal(t.Sigma, axis1=1, axis2=2)))
+            calm_case = np.max(np.abs(t.mu)) < 1e2 * sd_ and 1e-3 < sd_ < 1e3
+            # (the quadrature's own rounding is eps * |exponent|: only judged for O(1) exponents)
+            if 1 <= len(drop) <= 2 and len(dims) <= 3 and calm_case:
                 for r in range(R):
                     xa = x[:2]
                     mc, Cc = orc.condition(t.mu[r], t.Sigma[r], drop, dims, xa)
